@@ -455,7 +455,7 @@ QUICK_MIX = [("a", 120), ("a.bigsym", 24), ("multi", 40), ("a.dup", 16), ("o", 2
 def gen_items(run):
     exe = core.ARTS["san"]["naken_asm"]
     quick = run.tier == "quick"
-    scale = 1 if quick else 50
+    scale = 6 if quick else 50
     items = []
     for cls, n in QUICK_MIX:
         for _ in range(n * scale):
